@@ -336,13 +336,11 @@ impl<'ast, 'decls> ResolveIterator<'ast, 'decls>
                 let cur_bank_data = &mut self.bank_data[self.bank_ref.0];
 
                 // Advance the current bank's position
-                cur_bank_data.cur_position += {
-                    match instr.encoding.size
-                    {
-                        Some(size) => size,
-                        None => 0,
-                    }
-                };
+                cur_bank_data.cur_position = advance_position(
+                    report,
+                    ast_instr.span,
+                    cur_bank_data.cur_position,
+                    instr.encoding.size.unwrap_or(0))?;
             }
 
             asm::AstAny::DirectiveData(ast_data) =>
@@ -353,13 +351,11 @@ impl<'ast, 'decls> ResolveIterator<'ast, 'decls>
                 let cur_bank_data = &mut self.bank_data[self.bank_ref.0];
 
                 // Advance the current bank's position
-                cur_bank_data.cur_position += {
-                    match data_elem.encoding.size
-                    {
-                        Some(size) => size,
-                        None => 0,
-                    }
-                };
+                cur_bank_data.cur_position = advance_position(
+                    report,
+                    ast_data.header_span,
+                    cur_bank_data.cur_position,
+                    data_elem.encoding.size.unwrap_or(0))?;
             }
 
             asm::AstAny::DirectiveRes(ast_res) =>
@@ -370,7 +366,11 @@ impl<'ast, 'decls> ResolveIterator<'ast, 'decls>
                 let cur_bank_data = &mut self.bank_data[self.bank_ref.0];
 
                 // Advance the current bank's position
-                cur_bank_data.cur_position += res.reserve_size;
+                cur_bank_data.cur_position = advance_position(
+                    report,
+                    ast_res.header_span,
+                    cur_bank_data.cur_position,
+                    res.reserve_size)?;
             }
 
             asm::AstAny::DirectiveAlign(ast_align) =>
@@ -433,6 +433,30 @@ impl<'ast, 'decls> ResolveIterator<'ast, 'decls>
         }
 
         Ok(())
+    }
+}
+
+
+/// Advances a bank position, reporting an error instead
+/// of overflowing the machine word.
+fn advance_position(
+    report: &mut diagn::Report,
+    span: diagn::Span,
+    position: usize,
+    amount: usize)
+    -> Result<usize, ()>
+{
+    match position.checked_add(amount)
+    {
+        Some(new_position) => Ok(new_position),
+        None =>
+        {
+            report.error_span(
+                "value is out of supported range",
+                span);
+
+            Err(())
+        }
     }
 }
 
